@@ -521,7 +521,10 @@ func (t *Table) updateVPNIdx(u *Update, newPath, oldPath *Path) {
 	if !newPath.IsWithdraw && newPath.RemoteID() != 0 {
 		t.vpnIdx.RegisterPath(newPath)
 	}
-	if newBest != nil && newBest != oldBest {
+	// newBest == oldPath: the very same path object was fed again (soft reset in
+	// without a modifying import policy replays the Adj-RIB-In paths) and is the
+	// best path as before; it was unregistered above as the replaced path.
+	if newBest != nil && (newBest != oldBest || newBest == oldPath) {
 		t.vpnIdx.RegisterPath(newBest)
 	}
 }
